@@ -47,6 +47,8 @@ fn main() {
         "rx" => vharness::rx::run(seed, n, thorough, &corpus, &dir),
         "life" => vharness::life::run(seed, n, thorough, &corpus, &dir),
         "lifem" => vharness::life::run_model(seed, n, thorough, &corpus, &dir),
+        "sasl" => vharness::sasl::run(seed, n, thorough, &corpus, &dir),
+        "saslm" => vharness::sasl::run_model(seed, n, thorough, &corpus, &dir),
         "c08" => vharness::c08::run(seed, n, thorough, &corpus, &dir),
         "c08w" => vharness::c08::run_wake(seed, n, &dir),
         "typed" => vharness::typed::run(seed, n, thorough, &corpus, &dir),
